@@ -127,6 +127,21 @@ def matches(rt1, t1, exp, got):
         if k == 'CHOICE':
             by1 = {m['name']: m for m in t1['root'] + (t1['ext'] or [])}
             return isinstance(got, tuple) and got[0] == exp[0] and matches(rt1, by1[exp[0]]['t'], exp[1], got[1])
+        if k == 'SET OF' and not has_unknown(exp):
+            return G.norm(rt1, t1, got) == G.norm(rt1, t1, exp)     # multiset
+        if k == 'SET OF':
+            # multiset with 'absent' elements: greedy matching
+            if not isinstance(got, list) or len(got) != len(exp):
+                return False
+            rest = list(got)
+            for a in exp:
+                for i, b in enumerate(rest):
+                    if matches(rt1, t1['elem'], a, b):
+                        del rest[i]
+                        break
+                else:
+                    return False
+            return True
         if k in ('SEQUENCE OF', 'SET OF'):
             return isinstance(got, list) and len(got) == len(exp) and all(
                 matches(rt1, t1['elem'], a, b) for a, b in zip(exp, got))
